@@ -369,7 +369,7 @@ func run(c *vk.Ctx) {
 		return
 	}
 	all := map[string][]hx.Op{}
-	for _, m := range []map[string][]hx.Op{hx.Bases(), hx.GraphBases(), hx.ConfigBases(), hx.EvolveBases()} {
+	for _, m := range []map[string][]hx.Op{hx.Bases(), hx.GraphBases(), hx.ConfigBases(), hx.EvolveBases(), hx.BigBases()} {
 		for n, h := range m {
 			all[n] = h
 		}
